@@ -39,16 +39,28 @@
        such run ends like Model/Sim.v: the footprint of a component is untouched between the two moments, so such
        a run of a level has everything the comparison of two ticks needs (Proofs/MsgLevelP.v).  The answer-order
        runs of (4) are among them ([C08_answer_order_runs_are_message_level]).
-   PARTIAL: the tick of a system simulation is one event of the enclosing level in (6) (its own level's messages are
-   not interleaved with the enclosing level's), interrupts arrive between master ticks (an interrupt racing with a
-   running tick is the master machine's subject, C04/C07); per-topic queues with latency and acknowledging brokers
-   are explored on the delaying bus (codes 21/22).  Besides the theorems the schedule-explicit models are evaluated
+   (7) ALL the messages of ALL the schedulers of a nesting interleaved ([C08_interleaved_nesting_is_sim]).  In (6) the
+       tick of a system simulation is one event of the enclosing level; here it is not: a system simulation that is
+       handed its Input starts the tick of its own scheduler, every message of that scheduler -- and of the schedulers
+       below it, to any depth -- is a step of its own, taken at any moment between the messages of the enclosing level
+       and of the sibling system simulations, and when its tick has ended the system simulation's answer travels to the
+       enclosing scheduler like any other (the tree of ticks in progress [hcfg], the step relation [HS] of
+       Proofs/MsgTreeP.v).  Every such run ends like Model/Sim.v: seen from one system simulation everything outside
+       its subtree is an environment that leaves its footprint alone, so by induction over the run it has a run of its
+       own among environment steps, and a level has what the comparison of two ticks needs.  The runs of (6) are among
+       them ([C08_message_level_runs_are_interleaved]); Model/HSim.v executes them under any strategy
+       ([C08_interleaving_strategies_are_schedules], [C08_interleaved_example]: the tick of one system simulation
+       interrupted by the messages of another).
+   PARTIAL: interrupts arrive between master ticks (an interrupt racing with a running tick is the master machine's
+   subject, C04/C07); per-topic queues with latency and acknowledging brokers are explored on the delaying bus (codes
+   21/22): in the theorems a message is delivered in one step and a sender does not wait for an acknowledgement.  Besides the theorems the schedule-explicit models are evaluated
    under two strategies against Model/Sim.v on every generated case (flat: Model/NSim.v, code 23; nested:
    Model/NNSim.v, code 24).
    Property theorems only. *)
 From TV Require Import Base Model.Wiring Model.Ticker Model.Component Model.Sim Model.SimTime Model.Inline Model.NSim Oracle.SimCheck
   Proofs.WiringP Proofs.TickerP Proofs.SimP Proofs.EqvP Proofs.ParDevP Proofs.InlineP Proofs.InlineScopeP Proofs.InlineLatestP Proofs.ScheduleP Proofs.SimTraceP
-  Model.Interrupts Model.NNSim Proofs.FrameP Proofs.NScheduleP Proofs.NDetP Proofs.NDetScopeP Proofs.NDetXP Proofs.SimNTP Proofs.MsgLevelP.
+  Model.Interrupts Model.NNSim Proofs.FrameP Proofs.NScheduleP Proofs.NDetP Proofs.NDetScopeP Proofs.NDetXP Proofs.SimNTP Proofs.MsgLevelP
+  Model.HSim Proofs.MsgTreeP Proofs.HSimP.
 
 (* two arbitrary runs of the same tick (same wiring, time, roots), possibly incomplete and
    under different answer orders, whose answers are given by one deterministic function of
@@ -399,4 +411,88 @@ Example C08_message_level_example :
 Proof.
   destruct (xnrun_from_start par_cfg (table_dev par_tab) pick_last 100 3 0 par_xscript) as [[sA obA]|] eqn:E; [|vm_compute in E; discriminate].
   exists sA, obA. apply C08_answer_order_runs_are_message_level. apply (C08_nested_strategies_are_schedules_interrupts _ _ _ _ _ _ _ _ _ E).
+Qed.
+
+(* (7) all the messages of all the schedulers of the nesting interleaved: whole runs ... *)
+Theorem C08_interleaved_nesting_is_sim : forall cfg (devf : devfun) f,
+  subtree_okb cfg (S f) top = true ->
+  (forall c n t i, NoDup (keys (fst (devf c n t i)))) ->
+  (forall c n t i i', NoDup (keys i) -> NoDup (keys i') -> eqv i i' -> devf c n t i = devf c n t i') ->
+  forall initial script sA obA,
+    hxrun cfg devf f initial script sA obA ->
+    (forall d, obs_rel (dev_obs d obA) (dev_obs d (snd (xsim_from_start cfg devf f initial script)))) /\
+    NSR (devices_below cfg (S f) top) (levels_below cfg (S f) top) sA (fst (xsim_from_start cfg devf f initial script)).
+Proof.
+  intros cfg devf f Hok Hnd Hext initial script sA obA HA.
+  destruct (hxrun_is_sim cfg devf Hnd Hext f initial script sA obA (subtree_okb_sound _ _ _ Hok) HA) as [H1 H2].
+  split; assumption.
+Qed.
+
+(* ... hence any two of them agree (with one another and with every schedule of (2)-(6)) *)
+Theorem C08_interleaved_nesting_schedule_independent : forall cfg (devf : devfun) f,
+  subtree_okb cfg (S f) top = true ->
+  (forall c n t i, NoDup (keys (fst (devf c n t i)))) ->
+  (forall c n t i i', NoDup (keys i) -> NoDup (keys i') -> eqv i i' -> devf c n t i = devf c n t i') ->
+  forall initial script sA obA sB obB,
+    hxrun cfg devf f initial script sA obA -> hxrun cfg devf f initial script sB obB ->
+    forall d, obs_rel (dev_obs d obA) (dev_obs d obB).
+Proof.
+  intros cfg devf f Hok Hnd Hext initial script sA obA sB obB HA HB d.
+  destruct (C08_interleaved_nesting_is_sim cfg devf f Hok Hnd Hext initial script sA obA HA) as [H1 _].
+  destruct (C08_interleaved_nesting_is_sim cfg devf f Hok Hnd Hext initial script sB obB HB) as [H2 _].
+  eapply obs_rel_trans; [apply H1 | apply obs_rel_sym; apply H2].
+Qed.
+
+(* ... and one tick of one system simulation, the messages of all the schedulers of its subtree interleaved *)
+Theorem C08_interleaved_tick_is_sim : forall cfg (devf : devfun) f lv,
+  subtree_okb cfg f lv = true ->
+  (forall c n t i, NoDup (keys (fst (devf c n t i)))) ->
+  (forall c n t i i', NoDup (keys i) -> NoDup (keys i') -> eqv i i' -> devf c n t i = devf c n t i') ->
+  forall time chgA chgB sA sB sA' outA caA obA,
+    NoDup (keys chgA) -> NoDup (keys chgB) -> eqv chgA chgB ->
+    NSR (devices_below cfg f lv) (levels_below cfg f lv) sA sB ->
+    HNT cfg devf f lv time chgA sA sA' outA caA obA ->
+    let '(sB', outB, caB, obB) := on_tick_level cfg devf f lv time chgB sB in
+    eqv outA outB /\ caA = caB /\
+    NSR (devices_below cfg f lv) (levels_below cfg f lv) sA' sB' /\
+    (forall d, obs_rel (dev_obs d obA) (dev_obs d obB)).
+Proof.
+  intros cfg devf f lv Hok Hnd Hext time chgA chgB sA sB sA' outA caA obA HnA HnB Hchg Hs HA.
+  destruct (on_tick_level cfg devf f lv time chgB sB) as [[[sB' outB] caB] obB] eqn:E.
+  destruct (HNT_sim cfg devf Hnd Hext f lv (subtree_okb_sound _ _ _ Hok) time chgA chgB sA sB sA' sB' outA outB caA caB obA obB HnA HnB Hchg Hs HA E)
+    as [H1 [_ [_ [H2 [H3 H4]]]]].
+  split; [exact H1|]. split; [exact H2|]. split; [exact H3 | exact H4].
+Qed.
+
+Theorem C08_message_level_runs_are_interleaved : forall cfg (devf : devfun) f initial script s ob,
+  mxrun cfg devf f initial script s ob -> hxrun cfg devf f initial script s ob.
+Proof. intros. apply mxrun_hxrun. assumption. Qed.
+
+(* every strategy that picks, step by step, one of the messages in flight anywhere in the nesting yields such a run *)
+Theorem C08_interleaving_strategies_are_schedules : forall cfg devf pick n f initial script s ob,
+  hxrun_from_start cfg devf pick n f initial script = Some (s, ob) -> hxrun cfg devf f initial script s ob.
+Proof. intros. eapply hxrun_from_start_sound. eassumption. Qed.
+
+(* the example of (4) with interrupts at depth, message by message: under the rotating strategy the tick of system
+   simulation 4 (devices 6, 5, then 12) is interrupted by the messages of system simulation 7 (device 9, then the
+   system simulation 10 with 13 and 11) -- an order no run of (4)-(6) has; per device the observations of Model/Sim.v *)
+Example C08_interleaved_example :
+  match hxrun_from_start par_cfg (table_dev par_tab) (hpick_rot 1) 2000 3 0 par_xscript,
+        hxrun_from_start par_cfg (table_dev par_tab) hpick_last 2000 3 0 par_xscript with
+  | Some (_, obA), Some (_, obB) =>
+      firstn 8 (map obs_comp obA) = [3; 6; 5; 9; 12; 13; 11; 8]%positive /\
+      firstn 8 (map obs_comp obB) = [3; 9; 13; 11; 6; 5; 12; 8]%positive /\
+      length obA = length obB /\
+      forallb (fun d => seq_eqb (obs_of d obA) (obs_of d obB) &&
+                        seq_eqb (obs_of d obA) (obs_of d (snd (xsim_from_start par_cfg (table_dev par_tab) 4 0 par_xscript))))
+              [3; 5; 6; 12; 9; 11; 13; 8]%positive = true
+  | _, _ => False
+  end.
+Proof. vm_compute. repeat split; reflexivity. Qed.
+
+Example C08_interleaved_runs_exist :
+  exists sA obA, hxrun par_cfg (table_dev par_tab) 3 0 par_xscript sA obA.
+Proof.
+  destruct (hxrun_from_start par_cfg (table_dev par_tab) (hpick_rot 1) 2000 3 0 par_xscript) as [[sA obA]|] eqn:E; [|vm_compute in E; discriminate].
+  exists sA, obA. apply (C08_interleaving_strategies_are_schedules _ _ _ _ _ _ _ _ _ E).
 Qed.
